@@ -212,13 +212,18 @@ def bfs_seed(topo):
 
 
 # ---- recording ------------------------------------------------------------------------------------------------------
+KEEP_ON_LIVELOCK = 400      # events of a run that exhausted its step budget handed to TLC (the verdict is Terminates anyway)
+
+
 def mk_trace(rig, evs, cache0, pend0, tree, livelock, meta):
+    if livelock:
+        evs = evs[:KEEP_ON_LIVELOCK]
     return dict(tree=tree, livelock=livelock, topo=rig.topo, cache0=cache0, pend0=pend0, evs=evs, meta=meta,
                 script=[["Send", e["node"], e["k"], e["dnet"], e["dmac"], e["hops"], e["re"]] if e["n"] == "Send"
                         else ["Rx", e["l"], e["i"]] for e in evs])
 
 
-def run_messages(topo, sends, order, rng, tree=True, cache0=None, replies="all", budget=4000, meta=None, seg=None):
+def run_messages(topo, sends, order, rng, tree=True, cache0=None, replies="all", budget=1500, meta=None, seg=None):
     """fresh stacks; each send runs to quiescence, then recipients answer to the shown source (one at a time).
     Returns a list of traces (one, or several segments when seg is given)."""
     import routerrig
